@@ -201,7 +201,13 @@ def check_flush(eng, run):
             ty = ast.unparse(h.type) if h.type is not None else ""
             if ty in ("OSError", "_ssl_module.SSLError"):
                 n_arms += 1
+                # the arm itself plus the private helpers it calls (the two write_eof() calls may have been extracted)
+                from sa.norm import nodes_inl, private_helper
                 src = ast.unparse(h)
+                for c_ in [x for x in ast.walk(h) if isinstance(x, ast.Call)]:
+                    g_ = private_helper(fn, c_)
+                    if g_ is not None:
+                        src += "\n" + "\n".join(ast.unparse(n_) for n_, _o in nodes_inl(g_) if isinstance(n_, ast.Call))
                 ok = "_read_bio.write_eof()" in src and "_write_bio.write_eof()" in src and isinstance(h.body[-1], ast.Raise)
                 if not ok:
                     run.finding("C08.eofbio", fn, h.body[0], f"the `except {ty}` arm no longer marks both BIOs EOF before re-raising: a half-broken SSL state could be reused")
